@@ -153,8 +153,10 @@ def gen_leaf(rng, lib, inst_targets):
         return {'t': 'light', 'ref': rng.choice(lib['lights'])['id']}
     if r < 0.78:
         return {'t': 'cam', 'ref': rng.choice(lib['cameras'])['id']}
-    if r < 0.84:
+    if r < 0.83:
         return {'t': 'extra'}
+    if r < 0.84 and lib.get('allow_broken'):
+        return {'t': 'broken', 'what': rng.choice(['geometry', 'light', 'camera', 'controller'])}
     if inst_targets:
         return {'t': 'inst', 'ref': rng.choice(inst_targets)}
     return {'t': 'geom', 'ref': rng.choice(lib['geoms'])['id'], 'binds': gen_binds(rng, lib)}
@@ -213,17 +215,34 @@ def gen_case(rng, lib, forward_refs=False):
     if rng.random() < 0.5:
         rng.shuffle(order)                              # file order: forward references inside library_nodes
     roots = []
-    nroots = rng.choice([1, 1, 2, 3])
+    web = rng.random() < 0.3
+    nroots = rng.randint(2, 6) if web else rng.choice([1, 1, 2, 3])
     root_ids = ['root%d' % (i + 1) for i in range(nroots)]
+    # top-level scene nodes instantiate one another (instance_node resolves them through the scene's own
+    # scope): a random dependency order, independent of the document order, so that chains of backward
+    # and FORWARD references of every length occur (a forward reference defers the node to a retry pass)
+    rank = list(range(nroots))
+    rng.shuffle(rank)
+    lib = dict(lib, allow_broken=(rng.random() < 0.2))
     for i in range(nroots):
-        targets = [n['id'] for n in libnodes] + root_ids[:i]      # earlier top-level scene nodes can be instantiated too
-        if forward_refs:
-            targets = targets + root_ids[i + 1:]
+        if web:
+            targets = [n['id'] for n in libnodes if rng.random() < 0.5] + [root_ids[j] for j in range(nroots) if rank[j] < rank[i]]
+        else:
+            targets = [n['id'] for n in libnodes] + root_ids[:i]      # earlier top-level scene nodes can be instantiated too
+            if forward_refs:
+                targets = targets + root_ids[i + 1:]
         if rng.random() < 0.06:
             roots.append(gen_chain(rng, lib, rng.randint(8, 25), targets, ids, nid=root_ids[i]))
         else:
-            roots.append(gen_node(rng, lib, 0, rng.randint(1, 5), targets, ids, nid=root_ids[i]))
-    case = {'libnodes': libnodes, 'liborder': order, 'roots': roots}
+            roots.append(gen_node(rng, lib, 0, rng.randint(1, 3) if web else rng.randint(1, 5), targets, ids, nid=root_ids[i]))
+        if web:
+            lower = [root_ids[j] for j in range(nroots) if rank[j] < rank[i]]
+            if lower and rng.random() < 0.8:
+                # make the dependency real: instantiate the node just below in the dependency order (chains)
+                below = max(lower, key=lambda r: rank[root_ids.index(r)])
+                kids = roots[-1]['children']
+                kids.insert(rng.randint(0, len(kids)), {'t': 'inst', 'ref': below})
+    case = {'libnodes': libnodes, 'liborder': order, 'roots': roots, 'ignore': bool(lib.get('allow_broken'))}
     # follow-ups evaluated by the direct oracle: a root's subtree entered with a given matrix, and a second
     # traversal after one node's transform list was extended and saved
     if rng.random() < 0.5:
@@ -280,7 +299,7 @@ def paths(case, only_root=None, prefix=None):
                 walk(c, m2)
         elif t == 'inst':
             walk(table[n['ref']], mats)
-        elif t != 'extra':
+        elif t not in ('extra', 'broken'):
             out.append((mats, n))
     if only_root is not None:
         walk(case['roots'][only_root], list(prefix or []))
@@ -551,6 +570,9 @@ def render_node(n):
         return el('instance_light', [('url', '#' + n['ref'])])
     if t == 'cam':
         return el('instance_camera', [('url', '#' + n['ref'])])
+    if t == 'broken':
+        # an instance of something that is not in the document: dropped when loading with errors ignored
+        return el('instance_' + n['what'], [('url', '#no_such_' + n['what'])])
     return el('extra', [], el('technique', [('profile', 'verif')], el('note', [], 'x')))
 
 
